@@ -394,11 +394,17 @@ fn resync_rest(mut it: Compound<'_>, w: &[u64], v: &mut Verdict, step: usize) {
 }
 
 pub fn judge(b: &[u8], t: &mut Tape, log: &mut Option<&mut Vec<String>>) -> Result<Verdict, ()> {
-    judge_inner(b, t, log)
+    // parsed in place in the worker's reusable receive buffer, over the previous delivery
+    crate::arena::deliver_in_place(b, |slice| judge_inner(slice, t, log))
 }
 
 fn case_json(d: &[u8], tape: &[u32]) -> J {
     J::obj().set("deliver", hex(d)).set("tape", tape.to_vec())
+}
+
+/// With what the receive buffer held before (needed when the violation depends on it).
+fn case_json_prev(d: &[u8], tape: &[u32], prev: &[u8]) -> J {
+    case_json(d, tape).set("previous", hex(prev))
 }
 
 /// A compound datagram: stacked packets, or (one in four) the real CompoundBuilder.
@@ -471,7 +477,7 @@ fn delivery(seed: u64, idx: u64, ctx: &mut Ctx<'_>, out: &mut Vec<Violation>, tr
         });
     }
     if let Some((class, detail)) = v.violation {
-        out.push(Violation { class, detail, episode: idx, case: case_json(d, &tape.rec), provenance: prov().set("faults", J::Arr(script.iter().map(|f| f.to_json()).collect())) });
+        out.push(Violation { class, detail, episode: idx, case: case_json_prev(d, &tape.rec, &crate::arena::previous()), provenance: prov().set("faults", J::Arr(script.iter().map(|f| f.to_json()).collect())) });
     }
 }
 
@@ -487,6 +493,12 @@ impl Check for C11 {
             Tier::Quick => 150_000,
             Tier::Thorough => 6_000_000,
         }
+    }
+
+    /// `Compound::parse` must decide and the iterator must yield: a call that never returns, or
+    /// that takes the process down (stack overflow on a long chain), has done neither.
+    fn hang_is_violation(&self) -> bool {
+        true
     }
 
     fn run_episode(&self, seed: u64, idx: u64, ctx: &mut Ctx<'_>, out: &mut Vec<Violation>) {
@@ -517,6 +529,13 @@ impl Check for C11 {
             }
             delivery(seed, idx, ctx, out, &mut tr, &d, script, fired, base.source, &|| base.provenance().set("base", hex(&base.bytes)));
         }
+        if idx == crate::lensweep::LONG_CHAIN_EPISODE {
+            let chain = crate::lensweep::long_chain();
+            ctx.stats.fault("long-chain", 1);
+            delivery(seed, idx, ctx, out, &mut tr, &chain, &vec![], true, "long-chain", &|| J::obj().set("source", "2^20 header-only packets"));
+            // and the same chain cut inside its last header
+            delivery(seed, idx, ctx, out, &mut tr, &chain[..chain.len() - 2], &vec![Fault::Truncate { len: chain.len() - 2 }], true, "long-chain", &|| J::obj().set("source", "2^20 header-only packets, cut"));
+        }
         // the 16-bit length field, exhaustively (first SWEEP_EPISODES episodes own 16 values each)
         for v in crate::lensweep::values_for(idx) {
             for fr in crate::lensweep::compound_frames(v) {
@@ -531,6 +550,12 @@ impl Check for C11 {
 
     fn replay(&self, case: &J, mut log: Option<&mut Vec<String>>) -> Result<Option<(String, String)>, String> {
         let (d, tape) = crate::c01::parse_case(case)?;
+        // first what the receive buffer held before (parsed there as the earlier delivery was)
+        if let Ok(prev) = case.str_of("previous").and_then(|h| unhex(h)) {
+            if !prev.is_empty() {
+                let _ = judge(&prev, &mut Tape::canonical(), &mut None);
+            }
+        }
         let mut t = Tape::replaying(tape);
         match judge(&d, &mut t, &mut log) {
             Ok(v) => Ok(v.violation),
@@ -540,15 +565,21 @@ impl Check for C11 {
 
     fn shrink(&self, case: &J) -> Vec<J> {
         let Ok((d, tape)) = crate::c01::parse_case(case) else { return vec![] };
+        let prev = case.str_of("previous").ok().and_then(|h| unhex(h).ok()).unwrap_or_default();
+        let mk = |d: &[u8], t: &[u32]| if prev.is_empty() { case_json(d, t) } else { case_json_prev(d, t, &prev) };
         let mut out = Vec::new();
+        // most violations do not need the previous content of the buffer: try without it first
+        if !prev.is_empty() {
+            out.push(case_json(&d, &tape));
+        }
         for t in shrink_tape(&tape).into_iter().take(3) {
-            out.push(case_json(&d, &t));
+            out.push(mk(&d, &t));
         }
         for b in shrink_bytes(&d) {
-            out.push(case_json(&b, &tape));
+            out.push(mk(&b, &tape));
         }
         for t in shrink_tape(&tape).into_iter().skip(3) {
-            out.push(case_json(&d, &t));
+            out.push(mk(&d, &t));
         }
         out
     }
